@@ -203,7 +203,8 @@ func runPg(r *core.Run) {
 		}
 		for _, mode := range []string{"general", "db", "startup"} {
 			r.Begin(fmt.Sprintf("pg-malframe-%s-%s", mode, core.Hex(s)), len(s) > 0, "stream:malformed", "pg:malformed-frame")
-			r.Do("C12.pg.read " + mode + " " + core.Hex(s))
+			line := "C12.pg.read " + mode + " " + core.Hex(s)
+			noPanic(r, "pg-read-panic", line, r.Do(line))
 		}
 	}
 
@@ -295,7 +296,8 @@ func runPg(r *core.Run) {
 			fmts = []uint16{uint16(rd.Intn(3))}
 		}
 		r.Begin(fmt.Sprintf("pg-malrow-%s-%s", core.Hex(body), showTrs(ts)), true, "stream:malformed", "pg:malformed-row")
-		r.Do(fmt.Sprintf("C12.pg.row %s %s %s", showNats(fmts), showTrs(ts), core.Hex(msg)))
+		line := fmt.Sprintf("C12.pg.row %s %s %s", showNats(fmts), showTrs(ts), core.Hex(msg))
+		noPanic(r, "pg-row-panic", line, r.Do(line))
 	}
 
 	// ---- 5. simple Query replacement ----
